@@ -19,17 +19,25 @@ Vec(len, salt) == [i \in 1 .. len |-> ((i * 3 + salt * 7) % 5) - 2]
 
 \* length pairs realising every transform size 2 .. 32, two per size (balanced and lopsided)
 Pairs == {<<1, 1>>, <<1, 2>>, <<2, 2>>, <<1, 4>>, <<3, 3>>, <<4, 5>>, <<1, 8>>, <<8, 9>>, <<5, 12>>, <<17, 16>>, <<2, 31>>, <<9, 9>>}
-Kinds == {"multiply", "multiply_into", "pointwise", "inv_into"}
+\* "_short": the destination is shorter than the product (one less than |a|+|b|-1 resp. exactly |a|+|b|-1 for the inverse)
+Kinds == {"multiply", "multiply_into", "pointwise", "inv_into", "multiply_into_short", "inv_into_short"}
 
 Call(kind, la, lb, salt) ==
     LET a == Vec(la, salt) b == Vec(lb, salt + 1)
         n == SizeFor(a, b)
-        dst == IF kind = "inv_into" THEN [i \in 1 .. n + 3 |-> (i % 4) - 1] ELSE [i \in 1 .. la + lb + 1 |-> (i % 4) - 1]
-    IN [kind |-> kind, a |-> a, b |-> b, n |-> n, dst |-> IF kind \in {"multiply_into", "inv_into"} THEN dst ELSE <<>>,
+        dlen == CASE kind = "inv_into" -> n + 3
+                  [] kind = "inv_into_short" -> la + lb - 1
+                  [] kind = "multiply_into_short" -> (IF la + lb - 2 >= 1 THEN la + lb - 2 ELSE 1)
+                  [] OTHER -> la + lb + 1
+        dst == [i \in 1 .. dlen |-> (i % 4) - 1]
+    IN [kind |-> kind, a |-> a, b |-> b, n |-> n,
+        dst |-> IF kind \in {"multiply_into", "inv_into", "multiply_into_short", "inv_into_short"} THEN dst ELSE <<>>,
         want |-> CASE kind = "multiply" -> MultiplyResult(a, b)
                    [] kind = "multiply_into" -> MultiplyIntoResult(a, b, dst)
                    [] kind = "pointwise" -> PointwiseResult(a, b, n)
-                   [] kind = "inv_into" -> InvIntoResult(a, b, n, dst)]
+                   [] kind = "inv_into" -> InvIntoResult(a, b, n, dst)
+                   [] kind = "multiply_into_short" -> MultiplyIntoResult(a, b, dst)
+                   [] kind = "inv_into_short" -> InvIntoResult(a, b, n, dst)]
 
 GInit == planSize = 4 /\ hist = <<>>
 
